@@ -95,12 +95,44 @@ type Art struct {
 	Sampled bool `json:"sampled,omitempty"`
 	// Appended (bundles): see open
 	Appended bool `json:"appended,omitempty"`
+	// Thin: artifact of a count sweep (one of very many): a small deterministic sample of fault
+	// positions - the first 10, the last 48, every 509th, +-1 around multiples of 512 and 4096 -
+	// and only the private error value.
+	Thin bool `json:"thin,omitempty"`
 }
 
 // faultPositions: every k for ordinary artifacts; for Sampled ones the first and last 300
 // positions, +-2 around every multiple of 4 KiB and around every power of two, and a stride of 997
 // in between (so every chunk of >= 1 KiB of the output, in particular the last one, is hit).
-func faultPositions(n int, sampled bool) []int {
+func faultPositions(n int, sampled bool, thin ...bool) []int {
+	if len(thin) > 0 && thin[0] {
+		set := map[int]bool{n: true}
+		add := func(k int) {
+			if k >= 0 && k <= n {
+				set[k] = true
+			}
+		}
+		for k := 0; k < 10; k++ {
+			add(k)
+		}
+		for k := 0; k < 48; k++ {
+			add(n - k)
+		}
+		for k := 0; k <= n; k += 509 {
+			add(k)
+		}
+		for k := 512; k <= n+1; k += 512 {
+			add(k - 1)
+			add(k)
+			add(k + 1)
+		}
+		ks := make([]int, 0, len(set))
+		for k := range set {
+			ks = append(ks, k)
+		}
+		sort.Ints(ks)
+		return ks
+	}
 	if !sampled {
 		ks := make([]int, n+1)
 		for i := range ks {
@@ -632,8 +664,11 @@ func enumerate(t *testing.T, a Art, tl *tally) bool {
 				if ek != "" && (mode == mTransient || rf != (pass%2 == 0)) {
 					continue // the standard error values: sticky and short-write faults, one kind of destination each
 				}
+				if a.Thin && ek != "" {
+					continue
+				}
 				var rfInvoked int64
-				ks := faultPositions(len(O), a.Sampled)
+				ks := faultPositions(len(O), a.Sampled, a.Thin)
 				for _, k := range ks {
 					v, s := evalFault(run, O, k, mode, rf, false, ek)
 					if v != nil {
@@ -664,6 +699,9 @@ func enumerate(t *testing.T, a Art, tl *tally) bool {
 	classes[variant] = evals
 	if big {
 		classes["artifact>32KiB"] = evals
+	}
+	if a.Thin {
+		classes["count-sweep-thin-positions"] = evals
 	}
 	if a.Sampled {
 		classes["artifact>64KiB-sampled-positions"] = evals
@@ -1075,6 +1113,68 @@ func TestFaultEncoders(t *testing.T) {
 	arts = append(arts, generated("certchain", nGen(6, 60), genChain)...)
 	arts = append(arts, generated("mice", nGen(8, 120), genMI)...)
 	arts = append(arts, generated("cbor", nGen(14, 210), genCBOR)...)
+	runAll(t, arts)
+}
+
+// TestFaultCounts: one dimension at a time, EVERY count 0..130 (thorough: ..1100) and a few
+// larger ones - MI records, CBOR array items / map entries / top-level items, exchanges of a
+// bundle, header fields of a response, of a signed exchange, elements of a certificate chain -
+// each artifact with a thin sample of fault positions (see Art.Thin). A batching or buffering
+// path that an implementation switches to above SOME number of items (and that loses an error
+// there) is met whatever that number is, as long as it lies in the swept range.
+func TestFaultCounts(t *testing.T) {
+	var ns []int
+	for n := 0; n <= vh.Scale(130, 1100); n++ {
+		ns = append(ns, n)
+	}
+	ns = append(ns, 150, 200, 256, 257, 300, 400, 500, 512, 1000, 1024, 1100)
+	if vh.Thorough() {
+		ns = append(ns, 2000, 4096, 4097, 10000)
+	}
+	var arts []Art
+	thin := func(a Art) { a.Thin = true; arts = append(arts, a) }
+	hdrs := func(n int) []gen.HeaderKV {
+		var h []gen.HeaderKV
+		for i := 0; i < n; i++ {
+			h = append(h, kv(fmt.Sprintf("X-H%04d", i), "v"))
+		}
+		return h
+	}
+	for _, n := range ns {
+		thin(Art{Serializer: "mice", MI: &MISpec{Draft: []string{"02", "03"}[n%2], RecordSize: 16, PayloadLen: 16 * n, PayloadTag: 61}})
+		thin(Art{Serializer: "mice", MI: &MISpec{Draft: []string{"03", "02"}[n%2], RecordSize: 1, PayloadLen: n, PayloadTag: 62}})
+		arr := []Call{{Op: "array", Len: n}}
+		var seq []Call
+		var ents []Entry
+		for i := 0; i < n; i++ {
+			arr = append(arr, Call{Op: "uint", U: uint64(i)})
+			seq = append(seq, Call{Op: "text", S: "s"})
+			ents = append(ents, Entry{Key: fmt.Sprintf("k%05d", i), Val: Call{Op: "uint", U: 1}})
+		}
+		thin(Art{Serializer: "cbor", CBOR: arr})
+		thin(Art{Serializer: "cbor", CBOR: seq})
+		thin(Art{Serializer: "cbor", CBOR: []Call{{Op: "map", Entries: ents}}})
+		if n <= 300 || n == 1000 {
+			b := &bundlekit.Spec{Version: []string{"b2", "b1"}[n%2], Primary: "https://a.example/e0"}
+			for i := 0; i < n; i++ {
+				b.Exchanges = append(b.Exchanges, bundlekit.ExSpec{URL: fmt.Sprintf("https://a.example/e%d", i), Status: 200, BodyLen: 1, BodyTag: uint64(i)})
+			}
+			thin(Art{Serializer: "bundle", Bundle: b})
+			b2 := &bundlekit.Spec{Version: []string{"b1", "b2"}[n%2], Primary: "https://a.example/", Exchanges: []bundlekit.ExSpec{{URL: "https://a.example/", Status: 200, Headers: hdrs(n), BodyLen: 3, BodyTag: 5}}}
+			thin(Art{Serializer: "bundle", Bundle: b2})
+			sp := sxgSpec([]string{"1b3", "1b1", "1b2"}[n%3], 20, 16)
+			sp.ResHeaders = append([]gen.HeaderKV{kv("Content-Type", "text/html")}, hdrs(n)...)
+			thin(Art{Serializer: "sxg-write", Sxg: &SxgSpec{Spec: sp}})
+			thin(Art{Serializer: "sxg-signedmsg", Sxg: &SxgSpec{Spec: sp}})
+		}
+		if n >= 1 && n <= 40 {
+			ch := []ChainItem{{Cert: 0, OCSPLen: 5, SCTLen: -1}}
+			for i := 1; i < n; i++ {
+				ch = append(ch, ChainItem{Cert: -1, OCSPLen: -1, SCTLen: -1})
+			}
+			thin(Art{Serializer: "certchain", Chain: ch})
+		}
+	}
 	runAll(t, arts)
 }
 
